@@ -159,6 +159,8 @@ class Fn:
         cont = lambda: self.stmts(rest, k, live)
         if isinstance(s, ast.Expr) and isinstance(s.value, ast.Constant):   # docstring
             return cont()
+        if isinstance(s, ast.Pass):
+            return cont()
         if isinstance(s, ast.Raise):
             if s.exc is None:
                 if not self.reraise: self.err(s, "bare raise outside handler")
